@@ -128,3 +128,59 @@ Definition check_structure (r : routine) (impl : impl_result) (inexact : bool) (
    | IOk t => structure_ok (S (height r)) r t
    | IErr _ => []
    end)%list.
+
+
+(* ---------- C08: when only leaves define an additive resource, the root value is the sum over all leaves of
+   the leaf value weighted by the repetition sums of its repeated ancestors ---------- *)
+Fixpoint only_leaves_define (fuel : nat) (x : string) (r : routine) : bool :=
+  match fuel with
+  | O => false
+  | S f =>
+      match rchildren r with
+      | [] => true
+      | ch => negb (existsb (fun rs => String.eqb (r_name rs) x) (rresources r)) && forallb (only_leaves_define f x) ch
+      end
+  end.
+
+Fixpoint all_additive (fuel : nat) (x : string) (v : vtree) : bool :=
+  match fuel with
+  | O => false
+  | S f => match lookup x (vt_resources v) with Some (ty, _) => rtype_eqb ty RAdditive | None => true end
+           && forallb (all_additive f x) (vt_children v)
+  end.
+
+Fixpoint leaf_sum (fuel : nat) (x : string) (v : vtree) : option Q :=
+  match fuel with
+  | O => None
+  | S f =>
+      match vt_children v with
+      | [] => match lookup x (vt_resources v) with Some (_, q) => q | None => Some 0 end
+      | ch => omul (vt_weight v) (bigsum (map (leaf_sum f x) ch))
+      end
+  end.
+
+Fixpoint resource_names (fuel : nat) (r : routine) : list string :=
+  match fuel with
+  | O => []
+  | S f => (map r_name (rresources r) ++ flat_map (resource_names f) (rchildren r))%list
+  end.
+
+Definition check_accumulate (r : routine) (impl : impl_result) (inexact : bool) (pts : list (list (string * Q))) : list nat * list nat :=
+  (tie_compile r impl inexact pts,
+   match impl with
+   | IOk t =>
+       (spec_compile r impl inexact pts
+        ++ flat_map (fun p =>
+                       let rho := envQ p (dfltQ 0) in
+                       let v := den_src rho (S (height r)) true "" r [] [] [] in
+                       flat_map (fun x =>
+                                   if only_leaves_define (S (height r)) x r && all_additive (S (height r)) x v && vt_ok v
+                                   then match lookup x (ct_resources t), leaf_sum (S (height r)) x v with
+                                        | Some (_, e), Some q => [cmp inexact (evalQ rho e) (Some q)]
+                                        | Some _, None => [2%nat]
+                                        | None, Some q => [if Qeq_bool q 0 then 0%nat else 1%nat]
+                                        | None, None => [2%nat]
+                                        end
+                                   else []) (sort_dedup (resource_names (S (height r)) r))) pts)%list
+   | IErr _ => []
+   end).
